@@ -25,6 +25,7 @@ for d, m in rows:
     if others:
         now += ' (also ' + '; '.join(others) + ')'
     table.append(f"| {d.split('-')[0]} | {prop} | {short(m.get('what', ''), 170)} (needs: {short(m.get('needs', 'see meta.json'), 150)}) | {first} | {now} |")
+tail_phrase = "" if missed_now == 0 else f"; {missed_now} remain(s) a stated limit"
 head = f"""
 ## 10. Seeded property-breaking changes: which check catches which
 
@@ -42,7 +43,7 @@ git -C /repo checkout -- .`.
 "first version" = the check as it stood before the change was tried. {missed_first} of the {len(rows)} changes were
 missed by the first version of the check; {missed_first - missed_now} of those are caught after the strengthening named in
 the table (each strengthening widens an alphabet, adds an operation sequence, or adds an
-invariant or a model comparison — none special-cases the change), {missed_now} is a stated limit.
+invariant, a model comparison or a further exploration — none special-cases the change){tail_phrase}.
 
 | id | property | change (needs) | first version | now (quick tier) |
 |---|---|---|---|---|"""
